@@ -72,7 +72,7 @@ class Check:
 
     ABORT_ASPECT = {'obj': 'C06.abort', 'parse': 'C03.abort', 'parse_bytes': 'C03.abort', 'nest': 'C03.abort', 'print': 'C13.abort',
                     'wide': 'C13.abort', 'canon': 'C09.abort', 'uneq': 'C15.abort', 'ser': 'C16.abort', 'de': 'C16.abort', 'sj': 'C18.abort',
-                    'conv': 'C11.abort', 'kind_set': 'C20.abort', 'kind_ops': 'C20.abort', 'kind_iter': 'C20.abort', 'macro': 'C19.abort'}
+                    'conv': 'C11.abort', 'fragiter': 'C11.abort', 'kind_set': 'C20.abort', 'kind_ops': 'C20.abort', 'kind_iter': 'C20.abort', 'macro': 'C19.abort'}
 
     def _isolated_replay(self, files, out, extra_args, chunk=20000):
         """The harness died (a panic inside a destructor aborts the process and cannot be caught).  Replay the
@@ -525,7 +525,9 @@ def c11(ctx):
     else:
         consts = {'Keys': '{<<97>>, <<98>>}', 'Leaves': '{VNull, VNum(<<49>>), VBool(TRUE)}'}
     r = ctx.mc(f'conv_{ctx.tier}', 'MC_Conv', consts, {'Depth': 2, 'Width': 2}, ['Dump', 'ErrInRange'], spec='CSpec')
-    ctx.replay(files + [r['out']], ['C11.'])
+    fi = ctx.mc(f'fragiter_{ctx.tier}', 'MC_FragIter', {'Keys': '{<<97>>}' if ctx.quick else '{<<97>>, <<98>>}', 'Leaves': '{VNull, VNum(<<49>>)}'},
+                {'Depth': 2, 'Width': 2 if ctx.quick else 3}, ['Dump', 'ExactlyOnce', 'Bounded', 'Preorder', 'Volumes'], spec='FSpec')
+    ctx.replay(files + [r['out'], fi['out']], ['C11.'])
     trace, s = ctx.record('record-nav', 'nav.ndjson', ['--n', 200 if ctx.quick else 4000])
     reasons_trace(ctx, 'nav', 'TraceNav', trace, lambda ev, why: 'C11.trace_' + why,
                   lambda ev, why: f'recorded navigation of a generated document differs from CodeMapNav ({why})', rec_summary=s)
